@@ -130,3 +130,137 @@ Theorem C12_gpt_backup_mirrors_primary : forall mac pe id po gs gh pt pg sg y0 e
     let n := (length bs - 512)%nat in n = (128 * 128)%nat /\ firstn n bs = skipn (length bp - n) bp.
 Proof. exact HybridGptProofs.gpt_backup_mirrors_primary. Qed.
 End HybridMirror.
+
+(* Model/HybridHist.v: isohybrid over edit histories (AccountBoot + add_isohybrid / rm_isohybrid / write_fp; the hybrid object is updated only by the extent assignment of a write).  hstep / hrun are the repaired library (07829f6, 09176f7, b44c076+ed6ec41); hstep_old / hrun_old2 the rules before. *)
+From PV.Base Require Prim.
+From PV.Gen Require GenConst GenFun.
+From PV.Model Require Names Pack Alloc Codec Eltorito Account AccountLinks AccountBoot Hybrid HybridHist.
+From PV.Proofs Require HybridProofs AccountBootProofs HybridHistProofs HybridHistWrite.
+Section HybridHistories.
+Import PV.Base.Prim PV.Gen.GenConst PV.Gen.GenFun PV.Model.Names PV.Model.Pack PV.Model.Alloc PV.Model.Codec PV.Model.Eltorito PV.Model.Account PV.Model.AccountLinks PV.Model.AccountBoot PV.Model.Hybrid PV.Model.HybridHist PV.Proofs.HybridProofs PV.Proofs.AccountBootProofs PV.Proofs.HybridHistProofs PV.Proofs.HybridHistWrite.
+Local Open Scope Z_scope.
+Theorem C12_hist_refused_call_changes_nothing s o : snd (hstep s o) = Ref -> fst (hstep s o) = s.
+Proof. first [exact (@hh_refused_unchanged) | apply (@hh_refused_unchanged) | intros; eapply (@hh_refused_unchanged); eassumption]. Qed.
+
+Theorem C12_hist_rm_isohybrid_exact s :
+  hstep s HRmHybrid = (with_hyb s None, Acc) /\
+  hb (fst (hstep s HRmHybrid)) = hb s /\ hsigs (fst (hstep s HRmHybrid)) = hsigs s /\
+  hybrid_view (fst (hstep s HRmHybrid)) = None /\
+  (bwreck (hb s) = false ->
+   hstep (with_hyb s None) HWrite = (with_hyb s None, Acc) /\
+   hybrid_view (fst (hstep (with_hyb s None) HWrite)) = None).
+Proof. first [exact (@hh_rm_hybrid_exact) | apply (@hh_rm_hybrid_exact) | intros; eapply (@hh_rm_hybrid_exact); eassumption]. Qed.
+
+Theorem C12_hist_edits_keep_the_hybrid_object s o : is_rm_eltorito o = false -> hhyb (fst (hstep s (HBase o))) = hhyb s.
+Proof. first [exact (@hh_edits_keep_hybrid) | apply (@hh_edits_keep_hybrid) | intros; eapply (@hh_edits_keep_hybrid); eassumption]. Qed.
+
+Theorem C12_hist_rm_eltorito_removes_hybrid s :
+  snd (hstep s (HBase BRmEltorito)) = Acc ->
+  hhyb (fst (hstep s (HBase BRmEltorito))) = None /\ hybrid_view (fst (hstep s (HBase BRmEltorito))) = None.
+Proof. first [exact (@hh_rm_eltorito_removes_hybrid) | apply (@hh_rm_eltorito_removes_hybrid) | intros; eapply (@hh_rm_eltorito_removes_hybrid); eassumption]. Qed.
+
+Theorem C12_hist_mbr_covers_padded_image y iso :
+  geom_ok y -> 0 <= iso ->
+  let h := hy_ih y in
+  let v := view_of y iso in
+  let padded := iso + ih_padlen h iso in
+  padded mod (ih_heads h * ih_sectors h * 512) = 0 /\ padded mod 512 = 0 /\
+  (ih_efi h = false -> v_len v = padded) /\
+  v_rba v = ih_rba h /\
+  (active_visible h = true ->
+   exists bh bs bc es ec,
+     v_active v = [ih_part_entry h; ih_part_offset h; ih_psize h iso; bh; bs; bc; ih_ptype h;
+                   ih_heads h - 1 + (ih_ehead h - (ih_heads h - 1)); es; ec] /\
+     (padded / (ih_heads h * ih_sectors h * 512) <= 1024 ->
+      ih_psize h iso * 512 = padded - ih_part_offset h * 512)).
+Proof. first [exact (@hh_mbr_covers_image) | apply (@hh_mbr_covers_image) | intros; eapply (@hh_mbr_covers_image); eassumption]. Qed.
+
+Theorem C12_hist_gpt_positions_after_update y ext sc iso y' :
+  geom_ok y -> 0 <= iso -> iso mod 512 = 0 -> hy_update_efi y ext sc iso = Some y' ->
+  let padded := iso + ih_padlen (hy_ih y) iso in
+  gh_current_lba (g_header (hy_pri y')) = 1 /\
+  gh_backup_lba (g_header (hy_pri y')) = gh_current_lba (g_header (hy_sec y')) /\
+  gh_backup_lba (g_header (hy_sec y')) = 1 /\
+  gh_current_lba (g_header (hy_sec y')) * 512 + 512 = padded /\
+  gh_pe_lba (g_header (hy_sec y')) = gh_current_lba (g_header (hy_sec y')) - 32 /\
+  gh_last_usable (g_header (hy_pri y')) = padded / 512 - 34 /\
+  gh_last_usable (g_header (hy_sec y')) = padded / 512 - 34 /\
+  ih_efi_lba (hy_ih y') = ext /\ ih_efi_count (hy_ih y') = sc /\
+  parts_view (firstn 2 (g_parts (hy_pri y'))) = [gp_first_lba (hd (gpart_new true [] []) (g_parts (hy_pri y))); iso / 512 - 1; ext * 4; ext * 4 + sc - 1] /\
+  parts_view (firstn 2 (g_parts (hy_sec y'))) = [gp_first_lba (hd (gpart_new true [] []) (g_parts (hy_sec y))); iso / 512 - 1; ext * 4; ext * 4 + sc - 1].
+Proof. first [exact (@hh_update_efi_gpt) | apply (@hh_update_efi_gpt) | intros; eapply (@hh_update_efi_gpt); eassumption]. Qed.
+
+Theorem C12_hist_gpt_inside_image_partial y ext sc iso y' :
+  geom_ok y -> 0 <= iso -> iso mod 512 = 0 -> hy_update_efi y ext sc iso = Some y' ->
+  gh_num_parts (g_header (hy_sec y)) = 128 ->
+  (iso <= secondary_write_offset (hy_sec y') <-> 16896 <= ih_padlen (hy_ih y) iso) /\
+  secondary_write_offset (hy_sec y') + sec_len y' = iso + ih_padlen (hy_ih y) iso.
+Proof. first [exact (@hh_gpt_inside_image_partial) | apply (@hh_gpt_inside_image_partial) | intros; eapply (@hh_gpt_inside_image_partial); eassumption]. Qed.
+
+Theorem C12_hist_gpt_inside_image_refuted :
+  exists ops v, hybrid_view (hrun hinit ops) = Some v /\
+                0 <= v_sec_at v /\ ~ (iso_size_of (hrun hinit ops) <= v_sec_at v).
+Proof. first [exact (@hh_gpt_inside_image_refuted) | apply (@hh_gpt_inside_image_refuted) | intros; eapply (@hh_gpt_inside_image_refuted); eassumption]. Qed.
+
+Theorem C12_write_after_accepted_history_old_refuted :
+  all_acc_but_last false false w_plain_efi = true /\ all_acc_but_last false false w_two_efi = true /\
+  all_acc_but_last false false w_rm_eltorito = true.
+Proof. first [exact (@hh_write_succeeds_old_refuted) | apply (@hh_write_succeeds_old_refuted) | intros; eapply (@hh_write_succeeds_old_refuted); eassumption]. Qed.
+
+Theorem C12_write_after_accepted_history_old2_refuted : all_acc_but_last true false w_shared_inode = true.
+Proof. first [exact (@hh_write_succeeds_old2_refuted) | apply (@hh_write_succeeds_old2_refuted) | intros; eapply (@hh_write_succeeds_old2_refuted); eassumption]. Qed.
+
+Theorem C12_hist_shared_inode_written :
+  all_acc w_shared_inode = true /\
+  let s := hrun hinit w_shared_inode in
+  entry_rbas (hb s) = [26; 26] /\
+  option_map v_efi (hybrid_view s) = Some [104; 4] /\ option_map v_rba (hybrid_view s) = Some 104.
+Proof. first [exact (@hh_shared_inode_written) | apply (@hh_shared_inode_written) | intros; eapply (@hh_shared_inode_written); eassumption]. Qed.
+
+Theorem C12_hist_two_names_mac :
+  all_acc w_two_names = true /\
+  let s := hrun hinit w_two_names in
+  entry_rbas (hb s) = [26; 27; 29] /\
+  option_map v_efi (hybrid_view s) = Some [108; 8] /\
+  option_map v_mac (hybrid_view s) = Some [116; 12] /\
+  option_map (fun v => skipn 2 (v_pri_parts v)) (hybrid_view s) = Some [108; 115; 116; 127] /\
+  option_map (fun v => skipn 2 (v_sec_parts v)) (hybrid_view s) = Some [108; 115; 116; 127].
+Proof. first [exact (@hh_two_names_mac) | apply (@hh_two_names_mac) | intros; eapply (@hh_two_names_mac); eassumption]. Qed.
+
+Theorem C12_write_after_accepted_history_refuted : all_acc_but_last true true w_struct_error = true.
+Proof. first [exact (@hh_write_succeeds_refuted) | apply (@hh_write_succeeds_refuted) | intros; eapply (@hh_write_succeeds_refuted); eassumption]. Qed.
+
+Theorem C12_hist_efi_follows_moved_file :
+  let pre := h_boot ++ h_efi n_efi ++ [HAddHybrid 1 7 0 32 64 None false (Some true) hh_noguid] in
+  let s1 := hrun hinit (pre ++ [HWrite]) in
+  let s2 := hrun hinit (pre ++ [HWrite; HBase (BAddDir [] [68]); HWrite]) in
+  option_map v_efi (hybrid_view s1) = Some [4 * nth 1 (entry_rbas (hb s1)) 0; 8] /\
+  option_map v_efi (hybrid_view s2) = Some [4 * nth 1 (entry_rbas (hb s2)) 0; 8] /\
+  option_map v_rba (hybrid_view s2) = Some (4 * nth 0 (entry_rbas (hb s2)) 0) /\
+  entry_rbas (hb s1) = [26; 27] /\ entry_rbas (hb s2) = [27; 28].
+Proof. first [exact (@hh_efi_follows_moved_file) | apply (@hh_efi_follows_moved_file) | intros; eapply (@hh_efi_follows_moved_file); eassumption]. Qed.
+
+Theorem C12_hist_extent_assignment_never_raises b y : hy_wf y -> p_ok (push b y) = true /\ hy_wf (p_hy (push b y)).
+Proof. first [exact (@hh_push_good) | apply (@hh_push_good) | intros; eapply (@hh_push_good); eassumption]. Qed.
+
+Theorem C12_hist_every_history_keeps_hybrid_well_formed ops : hwf (hrun hinit ops).
+Proof. first [exact (@hh_run_wf) | apply (@hh_run_wf) | intros; eapply (@hh_run_wf); eassumption]. Qed.
+
+Theorem C12_write_after_any_history ops :
+  let s := hrun hinit ops in
+  bwreck (hb s) = false ->
+  match hhyb s with
+  | None => hstep s HWrite = (s, Acc)
+  | Some y =>
+      p_ok (push (hb s) y) = true /\
+      (snd (hstep s HWrite) = Acc <-> record_ok (p_hy (push (hb s) y)) (iso_size_of s) = true) /\
+      (snd (hstep s HWrite) <> Acc -> snd (hstep s HWrite) = Late)
+  end.
+Proof. first [exact (@hh_write_succeeds) | apply (@hh_write_succeeds) | intros; eapply (@hh_write_succeeds); eassumption]. Qed.
+
+Theorem C12_hist_record_ok_plain y iso :
+  ih_efi (hy_ih y) = false ->
+  record_ok y iso = match ih_record_mbr (hy_ih y) iso with Some _ => true | None => false end.
+Proof. first [exact (@hh_record_ok_plain) | apply (@hh_record_ok_plain) | intros; eapply (@hh_record_ok_plain); eassumption]. Qed.
+
+End HybridHistories.
